@@ -47,6 +47,7 @@ pub fn run(opts: &Opts) -> i32 {
         "C19" => c19::run(opts),
         "C20" => c20::run(opts),
         "smoke" => smoke::run(opts),
+        "leak" => smoke::leak(opts),
         other => {
             println!("INCONCLUSIVE: no check registered for {other}");
             2
